@@ -243,16 +243,48 @@ class MibCompiler(object):
                             'no MIB module in %s found at %s' % (mibname, source))
                         continue
 
+                    brokenMibs = set()
+
                     for mibTree in mibTrees:
-                        mibInfo, symbolTable = self._symbolgen.genCode(
-                            mibTree, symbolTableMap
-                        )
+                        try:
+                            mibInfo, symbolTable = self._symbolgen.genCode(
+                                mibTree, symbolTableMap
+                            )
+
+                        except error.PySmiError:
+                            if len(mibTrees) == 1:
+                                raise
+
+                            # one broken module does not take the other
+                            # modules of its file with it
+                            exc_class, exc, tb = sys.exc_info()
+
+                            if mibTree[0] in parsedMibs:
+                                # a sound copy of this module is known already
+                                debug.logger & debug.flagCompiler and debug.logger(
+                                    'ignoring broken duplicate of %s found at %s: %s' % (mibTree[0], source, exc))
+                                continue
+
+                            exc.source = source
+                            exc.mibname = mibTree[0]
+                            exc.msg += ' at MIB %s' % mibTree[0]
+
+                            debug.logger & debug.flagCompiler and debug.logger('%serror %s from %s' % (
+                                options.get('ignoreErrors') and 'ignoring ' or 'failing on ', exc, source))
+
+                            failedMibs[mibTree[0]] = exc
+
+                            processed[mibTree[0]] = statusFailed.setOptions(error=exc)
+
+                            brokenMibs.add(mibTree[0])
+
+                            continue
 
                         symbolTableMap[mibInfo.name] = symbolTable
 
                         parsedMibs[mibInfo.name] = fileInfo, mibInfo, mibTree
 
-                        if mibname in failedMibs:
+                        if mibname in failedMibs and mibname not in brokenMibs:
                             del failedMibs[mibname]
 
                             # an earlier source failed on this MIB, this one
@@ -294,24 +326,16 @@ class MibCompiler(object):
 
                 except error.PySmiError:
                     exc_class, exc, tb = sys.exc_info()
-
-                    # if the module asked for has been read all right, the
-                    # error belongs to a later module of the same file
-                    failedMib = mibname in parsedMibs and mibTree[0] or mibname
-
                     exc.source = source
-                    exc.mibname = failedMib
-                    exc.msg += ' at MIB %s' % failedMib
+                    exc.mibname = mibname
+                    exc.msg += ' at MIB %s' % mibname
 
                     debug.logger & debug.flagCompiler and debug.logger('%serror %s from %s' % (
                         options.get('ignoreErrors') and 'ignoring ' or 'failing on ', exc, source))
 
-                    failedMibs[failedMib] = exc
+                    failedMibs[mibname] = exc
 
-                    processed[failedMib] = statusFailed.setOptions(error=exc)
-
-                    if failedMib != mibname:
-                        break
+                    processed[mibname] = statusFailed.setOptions(error=exc)
 
             else:
                 exc = error.PySmiError('MIB source %s not found' % mibname)
